@@ -488,7 +488,7 @@ def main():
     c.rule = ("case = one operation line of a cluster history (block starting with `cfg <server limits> <L1 per client>`): "
               "1-3 servers, 1-4 clients with/without L1 (limits 0,1,2,5), binary keys/values/trigger names (empty values, NULs in "
               "values, trigger lists of 10-90 names, keys used as triggers), clock steps forwards/backwards, exhaustive 2-client op "
-              "sequences of depth 3 (4 in thorough); answer + (keys,triggers) of every server and every L1 after every op compared "
+              "sequences of depth 3-4 (3-5 in thorough), boundary sizes (2^4..2^16), generation churn (1..4096 / 65537 stores); answer + (keys,triggers) of every server and every L1 after every op compared "
               "with the model; every real fetch answer judged with Spec.answerOk against the ideal shared cache. Plus: hostile "
               "stream (NUL/empty names; correspondence only), raw frames -> real server vs srvHandle byte for byte, real tcp_cache "
               "against a scripted peer (request bytes + decode) vs reqX/cliDecodeFetch, compiled header layout vs generated layout, "
@@ -631,9 +631,9 @@ def main():
     # ---- cluster histories (judged)
     cfgs = ["cfg 0 0,0", "cfg 0 0,n", "cfg 0,0 0,0", "cfg 1 1,0"]
     if thorough:
-        hs = exhaustive_histories(3, cfgs) + exhaustive_histories(4, cfgs)
+        hs = exhaustive_histories(3, cfgs) + exhaustive_histories(4, cfgs) + exhaustive_histories(5, cfgs[:1], stride=2, offset=rng.randrange(2))
     else:
-        hs = exhaustive_histories(3, cfgs, stride=5, offset=rng.randrange(5)) + exhaustive_histories(4, cfgs[:1], stride=97, offset=rng.randrange(97))
+        hs = exhaustive_histories(3, cfgs, stride=5, offset=rng.randrange(5)) + exhaustive_histories(4, cfgs[:2], stride=7, offset=rng.randrange(7))
     run_stream("exhaustive", hs, True)
     hs = [gen_history(rng, rng.randrange(30, 200), big=(i % 5 == 0)) for i in range(4000 if thorough else 160)]
     run_stream("random", hs, True)
